@@ -176,6 +176,9 @@ class OTAFirmware:
         """Start firmware update process for one or more node_id."""
         try:
             fw_type, fw_ver = int(fw_type), int(fw_ver)
+            if not (0 <= fw_type <= 0xFFFF and 0 <= fw_ver <= 0xFFFF):
+                # Both are sent as unsigned 16 bit values.
+                raise ValueError
         except ValueError:
             _LOGGER.error(
                 "Firmware type %s or version %s not valid, please enter integers",
